@@ -687,7 +687,7 @@ package vanguard
 //@   step rwStep(r.rw)
 //@   ensures validER(r) && r.rw == old(r.rw) && r.r == old(r.r)
 //@   ensures[C02] err == nil ==> r.current != nil && (r.rw.op.serverEnveloper != nil ==> r.envRemain == 5) && (r.rw.op.serverEnveloper == nil ==> r.envRemain == 0)
-//@   ensures[C09] err != nil ==> r.envRemain == old(r.envRemain) && r.current == old(r.current)
+//@   ensures[C09,C15] err != nil ==> r.envRemain == old(r.envRemain) && r.current == old(r.current) && r.mustReleaseCurrent == old(r.mustReleaseCurrent)
 //@   ensures[C10,C02] err == nil && r.rw.op.clientEnveloper == nil && r.rw.op.serverEnveloper != nil ==> be32(r.env) <= limitOf(r.rw.op)
 //@   atcall[C02] (vanguard.serverEnvelopedProtocolHandler).encodeEnvelope: !arg(1).trailer && (r.rw.op.clientEnveloper == nil ==> arg(1).compressed == (r.rw.op.client.reqCompression != nil))
 //@   atcall[C02] (vanguard.serverEnvelopedProtocolHandler).encodeEnvelope: r.rw.op.clientEnveloper == nil && r.rw.op.contentLen != -1 ==> arg(1).length == r.rw.op.contentLen
@@ -880,7 +880,7 @@ package vanguard
 // validTR (C03, C08, C09, C10, C16), exactly one dispatch or one error report (C18), and the shape of
 // the request the backend sees (C02).
 //@ func (*operation).handle
-//@   atcall[C02,C01] (*message).advanceToStage: reqMsg.isRequest && (o.clientEnveloper == nil ==> reqMsg.wasCompressed == (o.client.reqCompression != nil))
+//@   atcall[C02,C01,C19] (*message).advanceToStage: reqMsg.isRequest && (o.clientEnveloper == nil ==> reqMsg.wasCompressed == (o.client.reqCompression != nil))
 //@   dispatch (net/http.Handler).ServeHTTP: opaque
 //@   requires validOp(o) && o.isValid && validReq(o.request) && o.writer != nil && extern(o.writer) && !typeIs(o.writer, *bytes.Buffer) && o.cancel != nil && o.request.ContentLength == -1
 //@   requires o.clientEnveloper == nil && o.serverEnveloper == nil && o.clientPreparer == nil && o.serverPreparer == nil && !o.clientReqNeedsPrep && !o.clientRespNeedsPrep && !o.serverReqNeedsPrep && !o.serverRespNeedsPrep
@@ -907,6 +907,7 @@ package vanguard
 //@   modifies
 
 //@ func (*operation).validate
+//@   ensures[C18,C02] err == nil && (typeIs(o.client.protocol, grpcClientProtocol) || typeIs(o.client.protocol, grpcWebClientProtocol) || typeIs(o.client.protocol, connectStreamClientProtocol)) ==> old(hdr(o.request.Header, "Content-Encoding")) == "" || old(hdr(o.request.Header, "Content-Encoding")) == "identity"
 //@   requires opFresh(o) && transcoder != nil
 //@   step opSame(o)
 //@   ensures[C18] (err == nil) == o.isValid
@@ -957,6 +958,7 @@ package vanguard
 //@   ensures[C02] err == nil ==> !hdrHas(headers, "Content-Type") && !hdrHas(headers, "Content-Encoding") && !hdrHas(headers, "Accept-Encoding") && !hdrHas(headers, "Connect-Protocol-Version") && !hdrHas(headers, "Connect-Timeout-Ms")
 //@   modifies mapobj(headers), #LIB0
 //@ func (connectUnaryGetClientProtocol).extractProtocolRequestHeaders
+//@   ensures[C19] err == nil && op.request.URL.RawQuery != "" ==> op.queryVars != nil
 //@   ensures[C05] hdrSameExcept(headers, "Content-Type", "Content-Encoding", "Accept-Encoding", "Connect-Protocol-Version", "Connect-Timeout-Ms")
 //@   requires headers != nil && op != nil && op.request != nil && op.request.URL != nil
 //@   ensures[C02] err == nil ==> !hdrHas(headers, "Content-Type") && !hdrHas(headers, "Accept-Encoding") && !hdrHas(headers, "Connect-Protocol-Version") && !hdrHas(headers, "Connect-Timeout-Ms")
@@ -1130,6 +1132,7 @@ package vanguard
 //@ pred trieNode(t) = t != nil && (forall v in string: forall m in string: t.verbs != nil && has(t.verbs, v) && t.verbs[v] != nil && has(t.verbs[v], m) && t.verbs[v][m] != nil ==> t.verbs[v][m].method == m && t.verbs[v][m].verb == v)
 //@ typeinv routeTrie trieNode except (*routeTrie).addRoute, (*routeTrie).insert, (*routeTrie).insertChild, (*routeTrie).insertVerb
 //@ func (*routeTrie).getTarget
+//@   ensures[C06] r0 != nil && r0.method == "*" && method != "*" ==> !(t.verbs != nil && has(t.verbs, verb) && t.verbs[verb] != nil && has(t.verbs[verb], method) && t.verbs[verb][method] != nil)
 //@   requires t != nil
 //@   ensures[C06] r0 != nil ==> r0.verb == verb && (r0.method == method || r0.method == "*")
 //@   modifies
@@ -1231,3 +1234,10 @@ package vanguard
 //@   modifies
 //@ func (grpcServerProtocol).extractEndFromTrailers
 //@   ensures[C05] err == nil && r0.trailers == trailers
+
+// C18 / C13: classification. A request is treated as REST only if nothing marks it as a Connect
+// request: "?connect=v1" on anything but a GET is unclassifiable, not REST.
+//@ func classifyRequest
+//@   requires req != nil && req.URL != nil
+//@   ensures[C18] r0 != nil && typeIs(r0, restClientProtocol) && r1 != nil ==> !(has(r1, "connect") && len(r1["connect"]) > 0 && r1["connect"][0] == "v1")
+//@   ensures[C18] r0 != nil && typeIs(r0, connectUnaryGetClientProtocol) ==> req.Method == "GET"
